@@ -6,7 +6,7 @@ CHECKS = {
  "C01": dict(level="model_checking", design="5 C01",
    technique="TLA+ machine spec (transcription of tokens.py/operators.py) model-checked against a TLA+ ideal grammar with TLC on all token strings up to a bound; TLC-emitted scenarios replayed into the real solver",
    text="TLC checks exhaustively (all token strings up to length 4/5 over two alphabets of 17 symbols, deep strings from a token-budget generator, plus grammar derivations up to 40 tokens with single-edit variants) that the transcribed machine computes the ideal tree and rejects the listed ill-formed classes; every string TLC visited is then solved by a fresh real ExpressionSolver under several concretisations (incl. near-equal number pools) and blank layouts and compared with the ideal value (verdict) and the machine outcome (conformance). Before any solver is built another instance is customised in place through its public attributes, so a default solver must carry the documented table whatever happened to other instances.",
-   note="Trusted: Python/NumPy float primitives as the value of a tree; the rendering of token strings to text; the ideal grammar in spec/SolverIdeal.tla as the reading of the documented step table. Strings in the documented ambiguity band are excluded."),
+   note="Trusted: Python/NumPy float primitives as the value of a tree; the rendering of token strings to text; the ideal grammar in spec/SolverIdeal.tla as the reading of the documented step table. Strings in the documented ambiguity band are excluded. Every solve runs under a wall-clock watchdog (20 s, repeated once with 120 s; the unchanged library needs under a millisecond): an expression that returns nothing inside both budgets is judged as no value returned."),
 }
 ALL = ["C%02d" % i for i in range(1, 21)]
 _d = os.path.join(ROOT, "manifest.d")
